@@ -7,6 +7,10 @@
      sigma nx <xs: nx> np <ys: np> k <q: k>        -> sigma <v> ...   | sigma EINVAL    (SigmaSplineModel:
                                                     sigma of a correlated parameter; nx = 0 when the
                                                     frequency vector is not given / ignored)
+     applytrace n maxm t k <xp: n> <terms: t x n pairs, term-major> <req: k>
+                                                   -> applytrace then per _vnacal_rfi call of the request
+                                                      (request-major, term-minor) <segment before> <re> <im>
+                                                      <segment after>  (F F F = fault)   (ApplyFreqModel.apply_trace)
    cond = min over the recorded recurrence steps of |den|^2 / (|dx1 d[j]|^2 + |dx2 c[j+1]|^2)
    (cancellation in the denominators; the check asserts the 1e-12 tolerance only when it is
    not tiny).  Output: exact rationals. *)
@@ -62,6 +66,17 @@ let () =
            (match sigma_interp !min_dx xs ys qs with
             | None -> print_string "sigma EINVAL\n"
             | Some l -> Printf.printf "sigma %s\n" (String.concat " " (List.map (function None -> "E" | Some v -> string_of_qc v) l)))
+         | "applytrace" ->
+           let n = int_of_string (next ()) in let maxm = int_of_string (next ()) in
+           let t = int_of_string (next ()) in let k = int_of_string (next ()) in
+           let xp = times n qc in
+           let terms = times t (fun () -> times n cx) in
+           let req = times k qc in
+           let tr = apply_trace !eps !cut xp (coqz_of_z (ZZ.of_int n)) (coqz_of_z (ZZ.of_int maxm)) terms req (coqz_of_z ZZ.zero) in
+           let one (sin, r) = match r with
+             | None -> Printf.sprintf "%s F F F" (ZZ.to_string (z_of_coqz sin))
+             | Some (v, sout) -> Printf.sprintf "%s %s %s" (ZZ.to_string (z_of_coqz sin)) (string_of_qi v) (ZZ.to_string (z_of_coqz sout)) in
+           Printf.printf "applytrace %s\n" (String.concat " " (List.map one (List.concat tr)))
          | _ -> Printf.printf "unknown %s\n" op);
         flush stdout
       end
